@@ -4,7 +4,7 @@
 (*  {ev:"conv", op:"int"|"float", v, T, w, multi, panic, res}              *)
 (*      one conversion call on a seeded random value; res is what the code *)
 (*      returned ({ok,n} | {ok,ns} | {ok,f} | {ok,fs}); judged with Conv.  *)
-(*  {ev:"vinit", v}  {ev:"vop", op, res:"done"|"panic", ok, after}         *)
+(*  {ev:"vinit", v}  {ev:"vop", op, res:"done"|"panic", ok, after, mult, conv} *)
 (*      a random extend/truncate sequence; the model value `val` is        *)
 (*      stepped with ValueList!Apply and compared with the value the code  *)
 (*      holds after every operation.                                       *)
@@ -52,6 +52,9 @@ TVOp == /\ Ev("vop")
                   /\ R.ok = r.ok
                   /\ SameValue(r.v, R.after)
                   /\ val' = Adopt(r.v, R.after)
+                  /\ R.mult = Mult(r.v)                               \* multiplicity() = number of items
+                  /\ LET c == ListConv(Adopt(r.v, R.after)) IN          \* to_multi_int::<i64> of the new value
+                       R.conv.ok = c.ok /\ (c.ok => R.conv.ns = c.ns)
 
 TNext == TConvInt \/ TConvFloat \/ TVInit \/ TVOp
 TSpec == TInit /\ [][TNext]_tvars
